@@ -18,6 +18,29 @@ _m('C01',
    'event-list subclasses outside the package are not analysed.',
    'DESIGN.md §3 C01')
 
+_m('C16',
+   'exhaustive literal-table evaluation of _sidict/_mul/_div; structural operator-wiring check; finite-domain guard tables',
+   'Decides that every one of the ~340 conversion-table entries (explicit and generated) is dimensionally exact, that '
+   '__mul__/__truediv__ of Quantity and SI consult the right table with the right operator and combine SI signatures '
+   'element-wise with +/-, that asSI/as_quantity carry value and signature, and that the type guards of + - < <= > >= '
+   'refuse exactly the incompatible operands (evaluated over same-type x same-signature). Exhaustive over the finite '
+   'tables, so it covers every pair of quantity types rather than the pairs a test samples. Does not decide the SI '
+   'unit-string parse/print round trip.',
+   'Trusts ast/literal evaluation; named results rely on base-unit factor 1.0 (C17 R17.1); float arithmetic itself is '
+   'trusted to compute product/quotient.',
+   'DESIGN.md §3 C16')
+
+_m('C17',
+   'exhaustive literal-table evaluation of all unit tables; compound-unit grammar cross-check; tokenizer check of __all__; dataflow shape of conversion methods',
+   'Decides for every declared unit of every quantity class: base unit has factor exactly 1.0, display table maps '
+   'declared units to strings and aliases share a factor, descriptions cover the units, factors are positive finite '
+   'floats, no duplicate literal keys, ~190 compound units agree with the factors of their components, public names '
+   'exist and are all exported, and __new__/displayvalue/as_unit/_val move values through the table exactly once. '
+   'Exhaustive over the tables. Does not decide "display value equals the original up to rounding" (floating point).',
+   'Trusts ast/tokenize; compound-unit readings are those parsable into declared units with the right dimension; '
+   'units whose names do not parse are not cross-checked.',
+   'DESIGN.md §3 C17')
+
 
 def finalize():
     for i in range(1, 19):
